@@ -44,8 +44,19 @@ fn read(path: &str) -> Vec<u8> {
 /// outcome of loading every strict prefix: E = failed, S = same as the complete table, D = silently different
 fn cuts<T: PartialEq>(path: &str, bytes: &[u8], full: &T, load: &dyn Fn() -> T, every: usize) -> String {
     let mut s = String::new();
+    // large files: besides the sampled offsets, every cut within one byte of a row boundary at a multiple of 512 rows
+    // (where a loader that reads rows in blocks would end on a full block).  Row lengths of the three tables: 22
+    // (metric), 26 (lookup), 66 (profile); recognised by the field-count word that starts every row.
+    let rowlen = if bytes.len() > 21 + 4096 {
+        [22usize, 26, 66].into_iter().find(|l| (1..6).all(|k| 19 + k * l + 1 < bytes.len() && bytes[19 + k * l] == bytes[19] && bytes[19 + k * l + 1] == bytes[20])).unwrap_or(0)
+    } else { 0 };
     for n in 0..bytes.len() {
-        if every > 1 && n % every != 0 && n + 40 < bytes.len() && n > 40 {
+        let near_block = rowlen > 0 && n + 1 >= 19 + 512 * rowlen && {
+            let q = (n + 1 - 19) / (512 * rowlen);
+            let b = 19 + q * 512 * rowlen;
+            q > 0 && n + 1 >= b && n <= b + 1
+        };
+        if !near_block && every > 1 && n % every != 0 && n + 40 < bytes.len() && n > 40 {
             s.push('.');
             continue;
         }
@@ -201,7 +212,8 @@ pub fn run(o: &Opts, _deck: &str) -> String {
         }
         // ---------------- lookup (non-empty: its street is read from the first key)
         if nrows > 0 {
-            let street = [Street::Pref, Street::Flop, Street::Turn, Street::Rive][t % 4];
+            // (the pre-flop street has only 169 classes: large tables go to the flop / turn)
+            let street = if nrows > 1000 { [Street::Flop, Street::Turn][t % 2] } else { [Street::Pref, Street::Flop, Street::Turn, Street::Rive][t % 4] };
             let map: BTreeMap<Isomorphism, Abstraction> = (0..nrows)
                 .map(|_| {
                     let pk = rng.cards(2, DECK_MASK);
@@ -303,6 +315,24 @@ pub fn run(o: &Opts, _deck: &str) -> String {
             }
             files += 4;
         }
+    }
+    // ---------------- metrics of the real sizes C(k,2): each must come back from ITS street's file
+    for (street, k) in [(Street::Flop, Street::Flop.k()), (Street::Turn, Street::Turn.k()), (Street::Pref, Street::Pref.k())] {
+        let n = k * (k - 1) / 2;
+        let entries: Vec<(i64, f32)> = (0..n).map(|i| (((i as u64 + 1).wrapping_mul(0x9E3779B97F4A7C15)) as i64, (i as f32 + 1.0) / n as f32)).collect();
+        let m = Metric::verif_from_entries(&entries);
+        let want = m.verif_entries();
+        for s in [Street::Rive, Street::Turn, Street::Flop, Street::Pref] {
+            let _ = std::fs::remove_file(Metric::path(s));
+        }
+        m.save();
+        let found: Vec<String> = [Street::Pref, Street::Flop, Street::Turn, Street::Rive].iter().filter(|s| std::path::Path::new(&Metric::path(**s)).exists()).map(|s| (*s as isize).to_string()).collect();
+        let back = catch(|| Metric::load(street).verif_entries() == want).map(|b| if b { "1" } else { "0" }).unwrap_or("P");
+        for s in [Street::Rive, Street::Turn, Street::Flop, Street::Pref] {
+            let _ = std::fs::remove_file(Metric::path(s));
+        }
+        files += 1;
+        out.line(&format!("mstreet {} {} | {} {}", street as isize, n, if found.is_empty() { "-".into() } else { found.join(",") }, back));
     }
     let _ = std::fs::remove_dir_all(&dir);
     let lines = out.finish();
